@@ -135,6 +135,8 @@ class Ctx:
         # auxiliary attributes (ClassSpec.aux_fields): {object id: {attribute: bounded?}}, and the unbounded ones this
         # path has read so far -- a refutation that follows such a read is tagged with them
         self.aux_fields_of = {}
+        # outcomes of synchronous calls of external collaborators that may fail (ExtMethod.raises), in call order
+        self.sync_outcomes = []
         self.aux_reads = set()
         self.dropped = set()
         self.obligations = []  # (name, verdict, info)
